@@ -19,9 +19,16 @@ CFG = {
     "level_note": "TODO",
     "technique": "Lean 4 proof over a function-by-function model of the validator; differential correspondence vs compiled model + independent pushdown-automaton oracle",
     "variants": [{"features": []}],
-    "lean_modules": [],
+    "lean_modules": ["SuccinctlyVerif.Props.C08"],
     "lean_files": ["SuccinctlyVerif/Spec/Json.lean", "SuccinctlyVerif/Spec/JsonPda.lean",
-                   "SuccinctlyVerif/Model/JsonValidate.lean"],
+                   "SuccinctlyVerif/Model/JsonValidate.lean", "SuccinctlyVerif/Props/C08.lean",
+                   "SuccinctlyVerif/Proof/JsonBase.lean", "SuccinctlyVerif/Proof/JsonNumber.lean",
+                   "SuccinctlyVerif/Proof/JsonUtf8.lean", "SuccinctlyVerif/Proof/JsonString.lean",
+                   "SuccinctlyVerif/Proof/JsonValue.lean", "SuccinctlyVerif/Proof/JsonComplete.lean",
+                   "SuccinctlyVerif/Proof/JsonF5.lean", "SuccinctlyVerif/Proof/JsonLineCol.lean"],
+    "allow_bv_decide": True,
+    "required_theorems": ["SV.Props.C08.validate_ok_iff", "SV.Props.C08.error_linecol",
+                          "SV.Props.C08.error_offset_viable_fails"],
     "generated": ["C08:"],
     "nontrivial": _c08_nontrivial,
     "rule": "request = one document; distinct request lines whose document has at least 2 bytes",
